@@ -659,3 +659,39 @@ Proof.
 Qed.
 
 End Main.
+
+(* ================================================================================================================ *)
+(* Example data for the non-vacuity examples in props/C01_loop.v                                                      *)
+(* ================================================================================================================ *)
+Definition ex_routes : list croute :=
+  [ {| cr_pat := [47;101;99;104;111]; cr_beh := HEcho;
+       cr_cors := {| c_origin := Some [42]; c_methods := Some [71;69;84;44;32;80;79;83;84]; c_headers := Some [88;45;75;101;121] |} |};
+    {| cr_pat := [47;112;97;110;105;99]; cr_beh := HPanic; cr_cors := cors_none |};
+    {| cr_pat := [47;42]; cr_beh := HFixed [104;105]; cr_cors := cors_none |} ].
+Definition ex_peer : peer := {| p_ip := [49]; p_port := 1 |}.
+(* "GET /a HTTP/1.1\r\nConnection: keep-alive\r\n\r\n" *)
+Definition ex_get_ka : bytes :=
+  [71;69;84;32;47;97;32;72;84;84;80;47;49;46;49;13;10;67;111;110;110;101;99;116;105;111;110;58;32;107;101;101;112;45;97;108;105;118;101;13;10;13;10].
+(* "POST /echo HTTP/1.1\r\nConnection: Keep-Alive\r\nContent-Length: 9000\r\n\r\n" followed by 9000 bytes: one read longer
+   than the BufReader capacity *)
+Definition ex_post_big : bytes :=
+  [80;79;83;84;32;47;101;99;104;111;32;72;84;84;80;47;49;46;49;13;10;67;111;110;110;101;99;116;105;111;110;58;32;75;101;101;112;45;65;108;105;118;101;13;10;67;111;110;116;101;110;116;45;76;101;110;103;116;104;58;32;57;48;48;48;13;10;13;10]
+  ++ repeat 97 (N.to_nat 9000).
+(* "GET /b HTTP/1.0\r\n\r\n" *)
+Definition ex_get_close : bytes := [71;69;84;32;47;98;32;72;84;84;80;47;49;46;48;13;10;13;10].
+(* "OPTIONS /echo HTTP/1.1\r\nConnection: keep-alive\r\n\r\n" *)
+Definition ex_options : bytes :=
+  [79;80;84;73;79;78;83;32;47;101;99;104;111;32;72;84;84;80;47;49;46;49;13;10;67;111;110;110;101;99;116;105;111;110;58;32;107;101;101;112;45;97;108;105;118;101;13;10;13;10].
+(* "GET /panic HTTP/1.1\r\nConnection: keep-alive\r\n\r\n" *)
+Definition ex_get_panic : bytes :=
+  [71;69;84;32;47;112;97;110;105;99;32;72;84;84;80;47;49;46;49;13;10;67;111;110;110;101;99;116;105;111;110;58;32;107;101;101;112;45;97;108;105;118;101;13;10;13;10].
+(* "BAD\r\n\r\n" *)
+Definition ex_bad : bytes := [66;65;68;13;10;13;10].
+
+(* the parsed request of a complete request byte string (examples only) *)
+Definition ex_req (r : bytes) : request :=
+  match parse_request_flat ipv4_parse ex_peer r with
+  | Ok (q, _) => q
+  | _ => {| r_method := 0; r_uri := []; r_query := []; r_version := []; r_headers := []; r_content := None;
+            r_addr := {| a_origin := []; a_proxies := []; a_port := 0 |} |}
+  end.
